@@ -2322,6 +2322,81 @@ def table(repo, src, name):
     return "Definition %s : list Z := [%s]." % (name, "; ".join(vals))
 
 
+def strip_casts(x):
+    while x.get("kind") in ("ImplicitCastExpr", "ParenExpr") and x.get("inner"):
+        x = x["inner"][0]
+    return x
+
+
+def wrapper(repo, fn, status):
+    node = ast_of(repo, "lang.c", fn)
+    params = [c["name"] for c in node.get("inner", []) if c.get("kind") == "ParmVarDecl"]
+    if len(params) != 2:
+        raise Unsupported("%s: two parameters expected" % fn)
+    body = [c for c in node["inner"] if c.get("kind") == "CompoundStmt"][0].get("inner", [])
+    if not body or body[-1].get("kind") != "ReturnStmt":
+        raise Unsupported("%s: body does not end in a return" % fn)
+    src = {}
+
+    def deref_param(x):
+        # *(const char**)p  ->  p
+        x = strip_casts(x)
+        if x.get("kind") != "UnaryOperator" or x.get("opcode") != "*":
+            return None
+        y = strip_casts(x["inner"][0])
+        if y.get("kind") != "CStyleCastExpr" or ctype(y) != "char **":
+            return None
+        z = strip_casts(y["inner"][0])
+        if z.get("kind") == "DeclRefExpr" and z["referencedDecl"]["name"] in params:
+            return z["referencedDecl"]["name"]
+        return None
+    for st in body[:-1]:
+        if st.get("kind") != "DeclStmt":
+            raise Unsupported("%s: statement %s before the return" % (fn, st.get("kind")))
+        for v in st.get("inner", []):
+            if v.get("kind") != "VarDecl" or not v.get("inner"):
+                raise Unsupported("%s: declaration without initialiser" % fn)
+            if v.get("storageClass") == "static":
+                raise Unsupported("%s: static local" % fn)
+            p = deref_param(v["inner"][0])
+            if p is None:
+                raise Unsupported("%s: initialiser of %s is not *(const char**)parameter" % (fn, v["name"]))
+            src[v["name"]] = p
+    call = strip_casts(body[-1]["inner"][0]) if body[-1].get("inner") else {}
+    if call.get("kind") != "CallExpr":
+        raise Unsupported("%s: the returned value is not a call" % fn)
+    callee = strip_casts(call["inner"][0])
+    if callee.get("kind") != "DeclRefExpr":
+        raise Unsupported("%s: indirect call" % fn)
+    cname = callee["referencedDecl"]["name"]
+    if not str(status.get(cname, "")).startswith("ok"):
+        raise Unsupported("%s: callee %s is not a translated function" % (fn, cname))
+    args = call["inner"][1:]
+    want = 3 if cname.startswith("compare_prefix") else 2
+    if cname not in ("compare_str", "compare_prefix", "compare_str_noaccent", "compare_prefix_noaccent") or len(args) != want:
+        raise Unsupported("%s: unexpected callee %s/%d" % (fn, cname, len(args)))
+    out = []
+    for a in args[:2]:
+        b = strip_casts(a)
+        if b.get("kind") == "DeclRefExpr" and b["referencedDecl"]["name"] in src:
+            out.append(src[b["referencedDecl"]["name"]])
+        else:
+            p = deref_param(a)
+            if p is None:
+                raise Unsupported("%s: argument is not one of the dereferenced parameters" % fn)
+            out.append(p)
+    extra = ""
+    if want == 3:
+        h = Fn(fn, node, [], {})
+        n = cval(h.E(args[2]))
+        if n is None:
+            raise Unsupported("%s: length argument is not a constant" % fn)
+        extra = " %d" % n
+    names = {params[0]: "pa", params[1]: "pb"}
+    return ("Definition %s (fuel : nat) (sgn : bool) (pa : list Z) (pb : list Z) : option (Z) :=\n  %s fuel sgn %s %s%s."
+            % (fn, cname, names[out[0]], names[out[1]], extra))
+
+
 def main():
     repo, out = sys.argv[1], sys.argv[2]
     load_enums(repo)
@@ -2378,6 +2453,16 @@ def main():
         except Unsupported as e:
             parts.append("(* %s: NOT TRANSLATED: %s *)" % (wrap_fn, e))
             status[wrap_fn] = "unsupported: %s" % e
+    # the four bsearch adapters as functions of the two strings their arguments point to: the body must be
+    # exactly  key = *(const char**)<p>; elm = *(const char**)<q>; return <callee>(<x>, <y>[, <constant>]);
+    # (declaration order free; which parameter feeds which argument, the callee and the constant are all read)
+    for wrap_fn in ("compare_str_wrap", "compare_prefix_wrap", "compare_str_noaccent_wrap", "compare_prefix_noaccent_wrap"):
+        try:
+            parts.append(wrapper(repo, wrap_fn, status))
+            status[wrap_fn + "(body)"] = "ok"
+        except Unsupported as e:
+            parts.append("(* %s (body): NOT TRANSLATED: %s *)" % (wrap_fn, e))
+            status[wrap_fn + "(body)"] = "unsupported: %s" % e
     new = "\n\n".join(parts) + "\n"
     try:
         old = open(out).read()
